@@ -201,7 +201,10 @@ TRange ==
   IN
   /\ Ev.e = "call" /\ Ev.op = "range"
   /\ kv' = newkv
-  /\ flags' = (IF e.res.tag # "list" \/ ItemsOf(e) # expect THEN {"range"} ELSE {})
+  \* a scan whose device reads met a damaged / truncated medium (stories mark the call `faulted`) may fail; whenever a
+  \* scan answers, it answers with exactly the live keys of its window
+  /\ flags' = (IF e.res.tag # "list" THEN (IF "faulted" \in DOMAIN e /\ e.faulted THEN {} ELSE {"range"})
+               ELSE IF ItemsOf(e) # expect THEN {"range"} ELSE {})
               \cup (IF newkv # kv THEN {"other"} ELSE {})
               \* C11: a key that carries an expiry is shown by the scan although it has expired, or hidden
               \* although it has not
